@@ -492,6 +492,8 @@ class Exec(Engine):
 
     def slice_read(self, st, base, lo, hi, node, reverse=False):
         line = node.lineno
+        if hasattr(base, 'sv_slice'):
+            return base.sv_slice(self, st, lo, hi, node, reverse)      # extension values (e.g. an HDF5 dataset: ds[:])
         if base.kind == 'tuple':
             if reverse and lo is None and hi is None:
                 return [Result(st, VTuple(base.items[::-1], base.islist))]
